@@ -169,7 +169,49 @@ func Equal(a, b *T) bool { return Diff(a, b) == "" }
 
 // Diff returns "" when equal, else a short description of the first
 // difference found.
-func Diff(a, b *T) string { return diff(a, b, "root") }
+func Diff(a, b *T) string {
+	if eq(a, b) {
+		return ""
+	}
+	return diff(a, b, "root")
+}
+
+func eqList(a, b []*T) bool {
+	if len(a) != len(b) {
+		return false
+	}
+	for i := range a {
+		if !eq(a[i], b[i]) {
+			return false
+		}
+	}
+	return true
+}
+
+// eq is the allocation-free equality behind Diff.
+func eq(a, b *T) bool {
+	if a == nil || b == nil {
+		return a == b
+	}
+	if a.K != b.K || a.S != b.S || a.I != b.I || a.B != b.B || a.Op != b.Op || a.Colon2 != b.Colon2 ||
+		a.NoObj != b.NoObj || a.HasElse != b.HasElse || len(a.Blocks) != len(b.Blocks) {
+		return false
+	}
+	if a.K == KFloat && !(math.IsNaN(a.F) && math.IsNaN(b.F)) && a.F != b.F {
+		return false
+	}
+	if !eqList(a.Kids, b.Kids) || !eq(a.Start, b.Start) || !eq(a.End, b.End) || !eq(a.Step, b.Step) ||
+		!eq(a.Init, b.Init) || !eq(a.Cond, b.Cond) || !eq(a.Loop, b.Loop) || !eqList(a.LHS, b.LHS) ||
+		!eqList(a.RHS, b.RHS) || !eqList(a.Conds, b.Conds) || !eqList(a.Else, b.Else) || !eqList(a.Body, b.Body) {
+		return false
+	}
+	for i := range a.Blocks {
+		if !eqList(a.Blocks[i], b.Blocks[i]) {
+			return false
+		}
+	}
+	return true
+}
 
 func diffList(a, b []*T, path string) string {
 	if len(a) != len(b) {
@@ -438,3 +480,11 @@ func cloneList(l []*T) []*T {
 }
 
 func CloneStmts(l []*T) []*T { return cloneList(l) }
+
+// DiffStmts compares two statement lists.
+func DiffStmts(a, b []*T) string {
+	if eqList(a, b) {
+		return ""
+	}
+	return diffList(a, b, "stmts")
+}
